@@ -595,6 +595,87 @@ func init() {
 				}
 			}
 		}
+		// -longSummary over several files in one invocation: each table lists, per level, exactly the lints the library
+		// reports at that level for that file (names and count), whatever the files before it held
+		{
+			var picks []CorpusCert
+			for _, cc := range corpus.Certs {
+				n := 0
+				for _, v := range zlint.LintCertificate(cc.Cert).Results {
+					if v.Status >= lint.Notice {
+						n++
+					}
+				}
+				if n >= 3 && len(picks) < 3 || (n == 0 && len(picks) == 3) {
+					picks = append(picks, cc)
+				}
+				if len(picks) == 4 {
+					break
+				}
+			}
+			if len(picks) >= 2 {
+				var paths []string
+				for i, cc := range picks {
+					pth := filepath.Join(tmp, fmt.Sprintf("long%d.pem", i))
+					os.WriteFile(pth, pem.EncodeToMemory(&pem.Block{Type: "CERTIFICATE", Bytes: cc.DER}), 0o600)
+					paths = append(paths, pth)
+				}
+				r := runCLI(bin, append([]string{"-longSummary"}, paths...), nil)
+				invocations++
+				// split the output into tables (each starts with the header row)
+				tables := strings.Split(r.stdout, "| LEVEL |")
+				if len(tables) > 0 {
+					tables = tables[1:]
+				}
+				if r.code != 0 || len(tables) != len(picks) {
+					out.Violate("C15|long-summary-tables", fmt.Sprintf("zlint -longSummary on %d files printed %d tables (exit %d)", len(picks), len(tables), r.code), nil, len(picks), len(tables))
+				}
+				rowRe := regexp.MustCompile(`^\|\s*(info|warn|error|fatal)?\s*\|\s*(\d*)\s*\|\s*(\S+)\s*\|`)
+				for ti, tb := range tables {
+					if ti >= len(picks) {
+						break
+					}
+					got := map[string][]string{}
+					gotN := map[string]int{}
+					level := ""
+					for _, ln := range strings.Split(tb, "\n") {
+						m := rowRe.FindStringSubmatch(strings.TrimSpace(ln))
+						if m == nil {
+							continue
+						}
+						if m[1] != "" {
+							level = m[1]
+							gotN[level], _ = strconv.Atoi(m[2])
+						}
+						if m[3] != "-" && level != "" {
+							got[level] = append(got[level], m[3])
+						}
+					}
+					want := map[string][]string{}
+					for n, v := range zlint.LintCertificate(picks[ti].Cert).Results {
+						switch v.Status {
+						case lint.Notice:
+							want["info"] = append(want["info"], n)
+						case lint.Warn:
+							want["warn"] = append(want["warn"], n)
+						case lint.Error:
+							want["error"] = append(want["error"], n)
+						case lint.Fatal:
+							want["fatal"] = append(want["fatal"], n)
+						}
+					}
+					for _, lv := range []string{"info", "warn", "error", "fatal"} {
+						sort.Strings(got[lv])
+						sort.Strings(want[lv])
+						if strings.Join(got[lv], ",") != strings.Join(want[lv], ",") || gotN[lv] != len(want[lv]) {
+							out.Violate("C15|long-summary:"+lv, fmt.Sprintf("zlint -longSummary, table %d of %d (%s), level %s: %d occurrences listing %d lints %v; the library reports %d: %v", ti+1, len(picks), picks[ti].File, lv, gotN[lv], len(got[lv]), got[lv][:minInt(4, len(got[lv]))], len(want[lv]), want[lv][:minInt(4, len(want[lv]))]),
+								map[string]interface{}{"files": []string{picks[0].File, picks[minInt(1, len(picks)-1)].File}, "table": ti + 1, "level": lv}, want[lv], got[lv])
+							break
+						}
+					}
+				}
+			}
+		}
 		// several files per invocation, mixed suffixes and encodings: every file is decoded as it would be alone under
 		// the same -format (the format is a function of the flag and of that file's own suffix), output lines appear in
 		// order, and the first failing file ends the run with a non-zero exit
